@@ -186,10 +186,15 @@ func (s *Set) Complement(endSymbol rune) *Set {
 	}
 	a = a.Forward
 	for a.Forward != nil {
-		node := Node{
-			Backward: b,
-			Begin:    pre,
-			End:      a.Begin - 1,
+		/* intervals that touch leave no gap between them */
+		if pre < a.Begin {
+			node := Node{
+				Backward: b,
+				Begin:    pre,
+				End:      a.Begin - 1,
+			}
+			b.Forward = &node
+			b = b.Forward
 		}
 		if a.End == endSymbol {
 			/* nothing is left above the last interval (and End + 1 may overflow) */
@@ -197,9 +202,7 @@ func (s *Set) Complement(endSymbol rune) *Set {
 		} else {
 			pre = a.End + 1
 		}
-		b.Forward = &node
 		a = a.Forward
-		b = b.Forward
 	}
 	if tail {
 		node := Node{
@@ -209,6 +212,10 @@ func (s *Set) Complement(endSymbol rune) *Set {
 		}
 		b.Forward = &node
 		b = b.Forward
+	}
+	if b == &set.Head {
+		/* nothing is left: the empty set has no links */
+		return set
 	}
 	b.Forward = &set.Tail
 	set.Tail.Backward = b
